@@ -35,6 +35,14 @@ pub fn parses(src: &str, syn: Syntax) -> Result<(), String> {
     }
 }
 
+/// The trusted parser must reproduce the input when its tree is printed. full_moon accepts some malformed text
+/// (e.g. a truncated Luau type table) by silently dropping tokens; on such input no claim is made.
+pub fn parser_lossless(src: &str, syn: Syntax) -> bool {
+    matches!(guarded(|| norm::parse(src, syn).map(|a| a.to_string() == src)), Ok(Ok(true)))
+}
+
+const LOSSY: &str = "the trusted parser is not lossless on this input";
+
 fn lex_ok(src: &str, syn: Syntax) -> Result<Vec<Tok>, String> {
     lex::lex(src, syn).map_err(|e| format!("checker lexer: {} at byte {}", e.msg, e.at))
 }
@@ -52,6 +60,9 @@ pub fn c01(case: &Case, out: &Outcome) -> Verdict {
     match out {
         Outcome::ParseError(_) => Verdict::Skip("input does not parse"),
         Outcome::Ok(q) => {
+            if !parser_lossless(&case.source, syn) {
+                return Verdict::Skip(LOSSY);
+            }
             if let Err(e) = parses(q, syn) {
                 return Verdict::Fail(format!("output does not parse: {}", short(&e, 200)));
             }
@@ -116,6 +127,9 @@ pub fn c02(case: &Case, out: &Outcome) -> Verdict {
     match out {
         Outcome::ParseError(_) => Verdict::Skip("input does not parse"),
         Outcome::Ok(q) => {
+            if !parser_lossless(&case.source, syn) {
+                return Verdict::Skip(LOSSY);
+            }
             let ti = match lex_ok(&case.source, syn) {
                 Ok(t) => t,
                 Err(_) => return Verdict::Skip("checker lexer rejects input"),
@@ -156,6 +170,9 @@ pub fn c03(case: &Case, out: &Outcome) -> Verdict {
     match out {
         Outcome::ParseError(_) => Verdict::Skip("input does not parse"),
         Outcome::Ok(q) => {
+            if !parser_lossless(&case.source, syn) {
+                return Verdict::Skip(LOSSY);
+            }
             let ti = match lex_ok(&case.source, syn) {
                 Ok(t) => t,
                 Err(_) => return Verdict::Skip("checker lexer rejects input"),
@@ -205,6 +222,9 @@ pub fn c03(case: &Case, out: &Outcome) -> Verdict {
 // C06
 
 pub fn c06(case: &Case, out: &Outcome) -> Verdict {
+    if !parser_lossless(&case.source, case.cfg.syntax) {
+        return Verdict::Skip(LOSSY);
+    }
     if case.range.is_some() {
         return Verdict::Skip("range given");
     }
@@ -303,6 +323,9 @@ pub fn has_ignore_directive(src: &str) -> bool {
 }
 
 pub fn c10(case: &Case, out: &Outcome) -> Verdict {
+    if !parser_lossless(&case.source, case.cfg.syntax) {
+        return Verdict::Skip(LOSSY);
+    }
     use crate::cfg::{Endings, Indent};
     let syn = case.cfg.syntax;
     if case.range.is_some() {
@@ -523,7 +546,27 @@ fn ast_json(src: &str, syn: Syntax) -> Option<serde_json::Value> {
     }
 }
 
+/// known finding D21: a single argument wrapped in redundant parentheses keeps the call parentheses on the first run
+pub fn c11_known_finding(case: &Case) -> Option<&'static str> {
+    use crate::cfg::CallParens;
+    if matches!(case.cfg.call_parentheses, CallParens::Always | CallParens::Input) {
+        return None;
+    }
+    let ast = ast_json(&case.source, case.cfg.syntax)?;
+    let mut calls = Vec::new();
+    let mut defs = Vec::new();
+    call_sites(&ast, &mut calls, &mut defs);
+    if calls.iter().any(|c| c.single == "ParenString" || c.single == "ParenTable") {
+        Some("KF-C11-parenthesised-single-argument")
+    } else {
+        None
+    }
+}
+
 pub fn c11(case: &Case, out: &Outcome) -> Verdict {
+    if !parser_lossless(&case.source, case.cfg.syntax) {
+        return Verdict::Skip(LOSSY);
+    }
     use crate::cfg::{CallParens, Quotes, SpaceAfter};
     let syn = case.cfg.syntax;
     if case.range.is_some() {
@@ -578,10 +621,6 @@ pub fn c11(case: &Case, out: &Outcome) -> Verdict {
     let mut in_calls = Vec::new();
     let mut in_defs = Vec::new();
     call_sites(&in_ast, &mut in_calls, &mut in_defs);
-    // known finding D21: a single argument wrapped in redundant parentheses keeps the call parentheses
-    if in_calls.iter().any(|c| c.single == "ParenString" || c.single == "ParenTable") && case.cfg.call_parentheses != CallParens::Always && case.cfg.call_parentheses != CallParens::Input {
-        return Verdict::Skip("KF-C11-parenthesised-single-argument");
-    }
     let omit_string = matches!(case.cfg.call_parentheses, CallParens::None | CallParens::NoSingleString);
     let omit_table = matches!(case.cfg.call_parentheses, CallParens::None | CallParens::NoSingleTable);
     for c in &calls {
@@ -687,6 +726,9 @@ pub fn c04(case: &Case, out: &Outcome) -> Verdict {
     match out {
         Outcome::ParseError(_) => Verdict::Skip("input does not parse"),
         Outcome::Ok(q) => {
+            if !parser_lossless(&case.source, syn) {
+                return Verdict::Skip(LOSSY);
+            }
             let a = match literal_values(&case.source, syn) {
                 Ok(a) => a,
                 Err(_) => return Verdict::Skip("checker lexer rejects input"),
@@ -753,6 +795,9 @@ fn top_level_statements(src: &str, syn: Syntax) -> Option<Vec<(usize, usize)>> {
 }
 
 pub fn c08(case: &Case, out: &Outcome) -> Verdict {
+    if !parser_lossless(&case.source, case.cfg.syntax) {
+        return Verdict::Skip(LOSSY);
+    }
     let syn = case.cfg.syntax;
     if case.range.is_some() {
         return Verdict::Skip("range given");
@@ -915,6 +960,9 @@ fn t_slice(text: &str, toks: &[Tok], a: usize, b: usize) -> Option<(usize, usize
 }
 
 pub fn c09(case: &Case, out: &Outcome) -> Verdict {
+    if !parser_lossless(&case.source, case.cfg.syntax) {
+        return Verdict::Skip(LOSSY);
+    }
     let syn = case.cfg.syntax;
     let Some((rs, re)) = case.range else { return Verdict::Skip("no range") };
     if has_ignore_directive(&case.source) {
@@ -1082,6 +1130,9 @@ pub fn c09(case: &Case, out: &Outcome) -> Verdict {
 // C12: require sorting
 
 pub fn c12(case: &Case, out: &Outcome) -> Verdict {
+    if !parser_lossless(&case.source, case.cfg.syntax) {
+        return Verdict::Skip(LOSSY);
+    }
     let syn = case.cfg.syntax;
     let q = match out {
         Outcome::Ok(q) => q,
@@ -1089,9 +1140,6 @@ pub fn c12(case: &Case, out: &Outcome) -> Verdict {
         _ => return Verdict::Skip("no output"),
     };
     let src = &case.source;
-    if src.contains("stylua: ignore start") || src.contains("stylua: ignore end") {
-        return Verdict::Skip("KF-C12-ignore-region");
-    }
     let Some(ast) = ast_json(src, syn) else { return Verdict::Skip("input does not parse") };
     let tops = crate::model::top_statements(&ast);
     let range = case.range;
